@@ -122,6 +122,9 @@ enum Act {
     Edit(usize, u8),
     Check(usize),
     Build(usize),
+    /// the user pastes the hash from the link error into the stale package's .core file: the
+    /// top-level `deps` entries are overwritten with the hashes of the dependencies' current cores
+    Tamper(usize),
     Link,
 }
 
@@ -212,7 +215,7 @@ impl Family for Staleness {
         900
     }
     fn rule(&self) -> &'static str {
-        "graphs {chain Main->A->B, diamond Main->{A,B}->C, fan Main->{A,B}, triangle Main->{A,B} with B->A, and with A->B} x 12 kinds of interface-changing edit (fn added/removed/signature changed, struct field added/retyped, enum variant added/payload changed, trait method added, impl added/removed, type renamed, generic parameter added); each library has source variants {v0, body-only edit, interface-changing edit}; actions = edit(pkg,variant), check(pkg), build(pkg), link; breadth-first search over all histories to depth 5 (quick) / 7 (thorough) with states deduplicated by (source variants, artifact file contents, the model's versions); every transition runs the real functions on real files. Reference model: symbolic interface versions (pkg, interface variant, versions of deps at build time). Oracle in every state: the dependency hashes a built/checked package records are those of the interface files it was built against; build/check succeed iff the model says the dependencies' interfaces exist; link succeeds iff every core exists and every recorded dependency version equals the version embedded in that dependency's core; a successful link prints the value denoted by the sources that were built; body-only edits leave the interface bytes unchanged and interface edits change the hash. non-trivial = states in which some package is stale; distinct = distinct states"
+        "graphs {chain Main->A->B, diamond Main->{A,B}->C, fan Main->{A,B}, triangle Main->{A,B} with B->A, and with A->B} x 12 kinds of interface-changing edit (fn added/removed/signature changed, struct field added/retyped, enum variant added/payload changed, trait method added, impl added/removed, type renamed, generic parameter added); each library has source variants {v0, body-only edit, interface-changing edit}; actions = edit(pkg,variant), check(pkg), build(pkg), tamper(pkg) (overwrite the dependency hashes at the top of a stale .core file with the current ones, as a user pasting the hash from the link error would), link; breadth-first search over all histories to depth 5 (quick) / 7 (thorough) with states deduplicated by (source variants, artifact file contents, the model's versions); every transition runs the real functions on real files. Reference model: symbolic interface versions (pkg, interface variant, versions of deps at build time). Oracle in every state: the dependency hashes a built/checked package records are those of the interface files it was built against; build/check succeed iff the model says the dependencies' interfaces exist; link succeeds iff every core exists and every recorded dependency version equals the version embedded in that dependency's core; a successful link prints the value denoted by the sources that were built; body-only edits leave the interface bytes unchanged and interface edits change the hash. non-trivial = states in which some package is stale; distinct = distinct states"
     }
     fn cases(&self, tier: Tier) -> Box<dyn Iterator<Item = Value> + '_> {
         let mut v = Vec::new();
@@ -305,6 +308,9 @@ impl Family for Staleness {
                 if i > 0 {
                     acts.push(Act::Check(i));
                 }
+                if st.arts[i].core.is_some() && !w.g[i].1.is_empty() {
+                    acts.push(Act::Tamper(i));
+                }
             }
             acts.push(Act::Link);
             for act in acts {
@@ -383,6 +389,30 @@ impl Family for Staleness {
                                 Err(p) => push(&mut rep, "check.panic", normalise_msg(&crate::oracle::panic_message(p)), &h2),
                             }
                         }
+                    }
+                    Act::Tamper(i) => {
+                        h2.push(format!("tamper({})", w.g[*i].0));
+                        let mut changed = false;
+                        if let Some(core_text) = &st.arts[*i].core {
+                            if let Ok(mut cv) = serde_json::from_str::<Value>(core_text) {
+                                for d in &w.g[*i].1 {
+                                    let dep_hash = st.arts[w.idx(d)].core.as_ref().and_then(|t| serde_json::from_str::<Value>(t).ok()).and_then(|v| v["interface"]["interface_hash"].as_str().map(|x| x.to_string()));
+                                    if let (Some(h), Some(cur)) = (dep_hash, cv["deps"][*d].as_str().map(|x| x.to_string())) {
+                                        if h != cur {
+                                            cv["deps"][*d] = json!(h);
+                                            changed = true;
+                                        }
+                                    }
+                                }
+                                if changed {
+                                    next.arts[*i].core = Some(std::sync::Arc::new(serde_json::to_string_pretty(&cv).unwrap()));
+                                }
+                            }
+                        }
+                        if !changed {
+                            continue;
+                        }
+                        // the model is unchanged: the package is as stale as before, so link must still fail
                     }
                     Act::Link => {
                         h2.push("link".to_string());
